@@ -131,8 +131,17 @@ def judge(case, sortflags, cd):
         locs = set((n.blocks_start if n.blocks and any(w & 0xFFFFFF for w in n.blocks) else None, tuple(n.blocks), n.frag) for n in nodes)
         # a flagged file whose TAIL END equals this content stores that tail on its own as well, and the fragment table entry it
         # inserts takes the place of the older one (later default-flag duplicates are matched against it): one more legitimate location
-        tails = sum(1 for e in case.ents if e.path in sortflags and e.content and e.content != c and len(c) < 4096 and len(e.content) > len(c) and
-                    (len(e.content) - len(c)) % 4096 == 0 and e.content[-len(c):] == c)
+        def parts(x):
+            k = (len(x) // 4096) * 4096
+            return x[:k], x[k:]
+        cb, ct = parts(c)
+        tails = 0
+        for e in case.ents:
+            if e.path in sortflags and e.content and e.content != c:
+                eb, et = parts(e.content)
+                # the flagged file shares the tail end or the run of full blocks with this content: that part exists twice then
+                if (ct and et == ct) or (cb and eb == cb):
+                    tails += 1
         if len(locs) > 1 + len(flagged) + tails:
             out.append(("duplicate-not-shared", "%d identical files of %d bytes (default flags) are stored %d times" % (len(nodes), len(c), len(locs))))
             break
